@@ -257,3 +257,115 @@ Definition ostep_verdict (c : ostep) : list nat :=
 Inductive case := CTheta (c : tstep) | COmega (c : ostep).
 Definition verdict (c : case) : list nat :=
   match c with CTheta t => tstep_verdict t | COmega o => ostep_verdict o end.
+
+(* ================================================================ structural random-effect histories
+   (create_joint_distribution / split_joint_distribution / add_iiv / remove_iiv / add_iov / remove_iov ...):
+   ORACLE ONLY - there is no model of update_random_variable_records behind these tags.  The class
+   predicates (tags 241..245) are evaluated here on exported facts; they are not guards of any theorem. *)
+Record hdist := mkHD {
+  hd_names : list text;                                   (* names of the etas / epsilons of the distribution *)
+  hd_level : nat;                                         (* 0 IIV, 1 IOV, 2 RUV *)
+  hd_sigma : bool;
+  hd_params : list (text * (Q * bool) * (nat * nat))      (* lower triangle: name, (init, fix), global (row, col) *)
+}.
+Record hstep := mkHS {
+  hs_before : list node;          (* the $OMEGA and $SIGMA record trees before the step *)
+  hs_gone : list nat;             (* 0-based indices (etas first, then epsilons offset by 1000) of the random
+                                     effects of the old model whose distribution does not survive *)
+  hs_nomega : nat;                (* how many of hs_before are $OMEGA records *)
+  hs_status : nat;                (* 0 edited, 1 refused with ValueError, 2 crashed *)
+  hs_mem : list hdist;            (* the in-memory model after the step: etas, then epsilons *)
+  hs_rr : option (rres (list hdist))     (* read_model_from_string(edited.code) *)
+}.
+
+Definition digits_nat (n : nat) : text := text_of_N (N.of_nat n).
+Definition default_rv_name (sigma : bool) (rc : nat * nat) : text :=
+  (if sigma then [83; 73; 71; 77; 65; 95] else [79; 77; 69; 71; 65; 95])%N
+  ++ digits_nat (fst rc) ++ [95%N] ++ digits_nat (snd rc).
+Fixpoint is_prefix (p t : text) : bool :=
+  match p, t with
+  | [], _ => true
+  | x :: p', y :: t' => N.eqb x y && is_prefix p' t'
+  | _, [] => false
+  end.
+(* 241: a parameter carrying a positional default name sits at another position *)
+Definition default_name_moved (d : hdist) : bool :=
+  existsb (fun p => let '(nm, _, rc) := p in
+             is_prefix (if hd_sigma d then [83; 73; 71; 77; 65; 95] else [79; 77; 69; 71; 65; 95])%N nm
+             && negb (text_eqb nm (default_rv_name (hd_sigma d) rc))) (hd_params d).
+(* 242: a joint distribution with a fixed parameter (create_omega_block never writes FIX) *)
+Definition partial_fix (d : hdist) : bool :=
+  Nat.ltb 1 (length (hd_names d)) && existsb (fun p => snd (snd (fst p))) (hd_params d).
+
+(* the number of random effects a record defines *)
+Definition rec_neta (prev : nat) (root : node) : nat :=
+  if has r_same (children root) then prev
+  else if is_block_record root
+       then match subtree r_block (children root) with
+            | Some b => match subtree r_size (children b) with
+                        | Some s => match leaf r_INT (children s) with
+                                    | Some t => match int_of_text t with Some n => N.to_nat n | None => 0 end
+                                    | None => 0
+                                    end
+                        | None => 0
+                        end
+            | None => prev
+            end
+       else match diag_len root with Ok n => N.to_nat n | Err _ => 0 end.
+(* 244: a record without BLOCK that defines several random effects loses one of them *)
+Fixpoint multi_item_touched (recs : list node) (start prev : nat) (gone : list nat) : bool :=
+  match recs with
+  | [] => false
+  | r :: tl =>
+      let k := rec_neta prev r in
+      (negb (is_block_record r) && Nat.ltb 1 k
+       && existsb (fun g => Nat.leb start g && Nat.ltb g (start + k)) gone)
+      || multi_item_touched tl (start + k) k gone
+  end.
+
+Definition hparams (l : list hdist) := flat_map (@hd_params) l.
+Definition hstep_verdict (c : hstep) : list nat :=
+  let mem := hs_mem c in
+  let omegas := firstn (hs_nomega c) (hs_before c) in
+  let sigmas := skipn (hs_nomega c) (hs_before c) in
+  match hs_status c with
+  | 1 => []                                  (* the API refused the edit: nothing was generated *)
+  | 2 => [47]
+  | _ =>
+      match hs_rr c with
+      | None => []
+      | Some (RErr _) => [41]
+      | Some (ROk rr) =>
+          tag (Nat.eqb (length mem) (length rr)
+               && forallb (fun ab => Nat.eqb (length (hd_names (fst ab))) (length (hd_names (snd ab)))
+                                     && forallb (fun xy => text_eqb (fst xy) (snd xy))
+                                          (combine (hd_names (fst ab)) (hd_names (snd ab)))) (combine mem rr)) 42
+          ++ tag (Nat.eqb (length mem) (length rr)
+                  && forallb (fun ab => Nat.eqb (hd_level (fst ab)) (hd_level (snd ab))
+                                        && Nat.eqb (length (hd_names (fst ab))) (length (hd_names (snd ab))))
+                       (combine mem rr)) 43
+          ++ (let pm := hparams mem in let pr := hparams rr in
+              if negb (Nat.eqb (length pm) (length pr)) then [43]
+              else tag (forallb (fun ab => Qeq_bool (fst (snd (fst (fst ab)))) (fst (snd (fst (snd ab))))) (combine pm pr)) 44
+                   (* FIX flags: 45 for a distribution of one random effect, 48 inside joint distributions *)
+                   ++ tag (forallb (fun ab => Nat.ltb 1 (length (hd_names (fst ab)))
+                                              || forallb (fun xy => Bool.eqb (snd (snd (fst (fst xy)))) (snd (snd (fst (snd xy)))))
+                                                   (combine (hd_params (fst ab)) (hd_params (snd ab)))) (combine mem rr)) 45
+                   ++ tag (forallb (fun ab => negb (Nat.ltb 1 (length (hd_names (fst ab))))
+                                              || forallb (fun xy => Bool.eqb (snd (snd (fst (fst xy)))) (snd (snd (fst (snd xy)))))
+                                                   (combine (hd_params (fst ab)) (hd_params (snd ab)))) (combine mem rr)) 48
+                   ++ tag (forallb (fun ab => text_eqb (fst (fst (fst ab))) (fst (fst (snd ab)))) (combine pm pr)) 46)
+      end
+  end
+  ++ (if existsb default_name_moved mem then [241] else [])
+  ++ (if existsb partial_fix mem then [242] else [])
+  ++ (if multi_item_touched omegas 0 0 (hs_gone c)
+         || multi_item_touched sigmas 1000 0 (hs_gone c) then [244] else [])
+  ++ (if existsb (fun r => existsb (fun x => has_rule r_SD x || has_rule r_CORR x || has_rule r_CHOLESKY x) (walk r))
+               (hs_before c) then [245] else [])
+  (* 246: some record contains a (v)xn repeat *)
+  ++ (if existsb (fun r => existsb (has_rule r_n) (walk r)) (hs_before c) then [246] else []).
+
+Inductive case2 := C1 (c : case) | CHist (c : hstep).
+Definition verdict2 (c : case2) : list nat :=
+  match c with C1 x => verdict x | CHist h => hstep_verdict h end.
